@@ -332,7 +332,7 @@ func TestC14(t *testing.T) {
 								c2 = a
 							}
 							rec.run(Case{Check: "premult", Space: s.Name, C: [3]uint32{uint32(ch), uint32(c1), uint32(c2)}, A: uint32(a)})
-							e++
+							e += int64(c2 - ch + 1) // one evaluation per (channel, alpha) pair
 						}
 						if a < 65535 {
 							n += int64(a) // pairs with 0 < c <= a
